@@ -54,3 +54,11 @@ Ltac unfold_gosem :=
 (* after the model's own helpers have been unfolded: same operations in the same order on both
    sides, so a case analysis on each operation's result in turn closes the goal *)
 Ltac tie_solve := unfold_gosem; cbv [obind]; tie_auto.
+
+(* "agree unless the code panics": left = the checked computation is None *)
+Ltac agree_auto := intros; repeat (tie_case; cbv beta iota zeta); first [left; reflexivity | right; reflexivity].
+
+(* value of a Go [error] result as the models number them: Ok _ = nil, Err c = the c-th error *)
+Definition err_value (o : outcome unit) : outcome Z :=
+  match o with Ok _ => Ok 0 | Err c => Ok c | Panic => Panic end.
+
